@@ -23,11 +23,16 @@ def ignore_specs(tier, method):
     return out
 
 
-def masked(sig, bound, ign):
-    """reference semantics of `ignore` on what Python bound (bound = tuple of (name, value))"""
+def masked(sig, bound, ign, selfslot=False):
+    """reference semantics of `ignore` on what Python bound (bound = tuple of (name, value)).
+    selfslot: the instance of a method is not ignored by name, so it occupies positional index 0
+    (index 0 selects the instance, index 1 the first declared parameter, ...)"""
     d = collections.OrderedDict(bound)
-    d.pop('self', None)
-    named = list(sig.pos)
+    if selfslot:
+        named = ['self'] + list(sig.pos)
+    else:
+        d.pop('self', None)
+        named = list(sig.pos)
     args = list(d.get('*', ()))
     kw = dict(d.get('**', ()))
     names = [i for i in ign if isinstance(i, str)]
@@ -48,7 +53,7 @@ def masked(sig, bound, ign):
         args = []
     if '**' in names:
         kw = {}
-    out = [(n, d[n]) for n in list(named) + list(sig.kwonly_names)]
+    out = [(n, d[n]) for n in list(named) + list(sig.kwonly_names)]   # (with selfslot: 'self' first)
     out.append(('*', tuple(args)))
     out.append(('**', tuple(sorted(kw.items()))))
     return tuple(out)
@@ -69,7 +74,7 @@ def _worker(task):
     kms = [('keymap()', lambda: km.keymap()), ('stringmap(flat=False)', lambda: km.stringmap(flat=False))]
     if tier == 'thorough':
         kms.append(('picklemap(pickle)', lambda: km.picklemap(serializer='pickle')))
-    for form in ('function', 'method'):
+    for form in ('function', 'method', 'method-noself'):
         # bind every call once
         ref = plain.compile() if form == 'function' else meth.compile()
         inst = None
@@ -88,7 +93,7 @@ def _worker(task):
                     counter = f.CALLS
                 else:
                     g = meth.compile()
-                    W = klepto.inf_cache(keymap=mk(), ignore=('self',) + ign)(g)
+                    W = klepto.inf_cache(keymap=mk(), ignore=(('self',) + ign) if form == 'method' else ign)(g)
                     cls = callmc.holder_class({'f': W})
                     prefix = (cls(),)
                     counter = g.CALLS
@@ -97,7 +102,7 @@ def _worker(task):
                 bykey = {}
                 for (a, kw), b in bound:
                     res['counts']['evaluations'] += 1
-                    mb = masked(plain, b, ign)
+                    mb = masked(plain, b, ign, selfslot=(form == 'method-noself'))
                     try:
                         key = W.key(*(prefix + a), **dict(kw))
                     except Exception as e:
@@ -156,7 +161,7 @@ def _cause(sig, ign):
 
 def run(tier, seed):
     rep = Report('C11', tier, seed, 'exploration',
-                 'signature grammar x {function, method with self ignored} x ignore specs (subsets of names, indices, *, **) x call forms x keymaps; '
+                 'signature grammar x {function, method with self ignored by name, method with the instance at index 0} x ignore specs (subsets of names, indices, *, **) x call forms x keymaps; '
                  'oracle = masked binding (ignored parameters replaced by a token, * / ** dropped); '
                  'non-trivial = masked-binding groups with >= 2 calls (calls that differ only in ignored arguments)',
                  assumptions=['index i < number of named parameters addresses that parameter however it was passed; larger indices address *args slots'])
